@@ -754,6 +754,11 @@ def scenarios(pid, tier):
             out.append(S(ct, ["req:a:w", "req:a", "req:a"], max_connections=1, h2script={"frag": 2}, early=False))
             out.append(S(ct, ["req:a:w", "up9:a", "req:a"], max_connections=1, h2cfg={"window_policy": "manual", "initial_window": 4},
                          h2script={"wu": [["stream", 70000]], "wu_budget": 1, "frag": 2}, early=False))
+    if pid == "C02":
+        # the task that reads on behalf of every stream is cancelled at each of its suspension points: the others' bodies must stay whole
+        for ct in (["h2pk"] if quick else ["h2pk", "h2alpn"]):
+            out.append(S(ct, ["req:a:w", "req:a:v", "req:a"], max_connections=1, cancels=1, styles=["scope"] if quick else ["scope", "native"],
+                         h2script={"frag": 2}, early=False))
     if pid == "C13":
         W = "req:a:w"
         manual = {"window_policy": "manual"}
